@@ -118,6 +118,32 @@ h("c08_request_pair_q", "dp_peripheral.rs", PV, ["C08"], panic_props=["C08", "C0
   bounds="ANY peripheral state under Inv_DP -> real transmit (req1) -> interlude {request_diagnostics()?, output write?, (any FDL-admissible reply with PDU <= 8 B | time-out), request_diagnostics()?} -> real transmit (req2) [-> real transmit (req3) after an Offline event]; max_retry_limit symbolic 1..15; unwind 20",
   obligation="judged on decoded wire bytes: same FCB with FCV=1 => same destination/SAPs/service and no accepted reply in between; accepted reply => toggled FCB with FCV=1; first request after the Offline event is a diagnostics request with FCV=0/FCB=1")
 
+# ---- C14: DP master cycle ------------------------------------------------------------------------
+MV = "dp::master::verif"
+MASF = ["<DpMaster as FdlApplication>::{transmit_telegram,receive_reply,handle_timeout}", "DpMaster::increment_cycle_state",
+        "PeripheralSet::{get_at_index_mut,get_next_index}", "Peripheral::{transmit_telegram,receive_reply}"]
+MAS_OBL = "termination of the master's turn; per slot: untouched | declined | sent one request; at most one request; request from the first slot at/after the cycle index that has something to send, nobody passed over, slots before the index not served again; cycle index stays at the sender; 'cycle completed' exactly when everybody remaining declined, then index 0, not reported twice; Offline transitions == reported events (none lost, none invented, right handle); global control due => reference broadcast frame, cycle untouched; Stop => nothing; Inv_DP preserved"
+h("c14_master_transmit_0slots", "dp_master.rs", MV, ["C14"], panic_props=["C14", "C05"], timeout_s=600, functions=MASF, derived_loops=[""],
+  bounds="DP master without any peripheral; any operating state, cycle state, global-control time, priority flag; every loop bound derived: <= 24 iterations (frame compare), the slot loop ends after slots+2 passes; unwind 26",
+  obligation=MAS_OBL)
+h("c14_master_transmit_2slots_q", "dp_master.rs", MV, ["C14"], panic_props=["C14", "C05"], timeout_s=2400, mem_gb=14, weight=4, functions=MASF, derived_loops=[""],
+  bounds="2 storage slots with symbolic occupancy (sparse included), each occupied slot an arbitrary peripheral under Inv_DP (1-byte images, user prm/config present or not); any master state (Stop/Clear/Operate, cycle index or CycleCompleted, last global control); unwind 26",
+  obligation=MAS_OBL)
+h("c14_master_transmit_3slots_t", "dp_master.rs", MV, ["C14"], panic_props=["C14", "C05"], tier="thorough", timeout_s=7200, mem_gb=20, weight=6, functions=MASF, derived_loops=[""],
+  bounds="3 storage slots; otherwise as _2slots_q", obligation=MAS_OBL)
+
+# ---- C18: live list / DP scanner -------------------------------------------------------------------
+LLF = ["<LiveList as FdlApplication>::{transmit_telegram,receive_reply,handle_timeout}", "LiveList::take_last_event", "bitvec BitArray get/set"]
+SCF = ["<DpScanner as FdlApplication>::{transmit_telegram,receive_reply,handle_timeout}", "DpScanner::parse_diag_response", "DpScanner::take_last_event"]
+h("c18_livelist_transmit", "fdl_live_list.rs", "fdl::live_list::verif", ["C18"], panic_props=["C18", "C05"], timeout_s=600, functions=LLF,
+  bounds="ANY live-list state (all 2^128 station sets, cursor 0..125, done flag), one transmit_telegram", obligation="probes exactly the cursor address (<= 125) with an FDL status request, or ends the turn and advances the cursor by one modulo 126; list unchanged")
+h("c18_livelist_reply_or_timeout", "fdl_live_list.rs", "fdl::live_list::verif", ["C18"], panic_props=["C18", "C05"], timeout_s=600, functions=LLF,
+  bounds="ANY live-list state with a request outstanding; any admissible reply (SC or response telegram, PDU <= 2 B) or a time-out", obligation="reply => bit set, Discovered(address, station type) iff it was clear; time-out => bit cleared, Lost iff it was set; no other bit changes; event handed out once")
+h("c18_scanner_transmit", "dp_scan.rs", "dp::scan::verif", ["C18"], panic_props=["C18", "C05"], timeout_s=600, functions=SCF,
+  bounds="ANY scanner state, one transmit_telegram", obligation="probes exactly the cursor address (<= 125) with a diagnostics request (DSAP 60/SSAP 62, FCB first), or advances the cursor by one modulo 126")
+h("c18_scanner_reply_or_timeout", "dp_scan.rs", "dp::scan::verif", ["C18"], panic_props=["C18", "C05"], timeout_s=600, functions=SCF,
+  bounds="ANY scanner state with a request outstanding; any admissible reply (PDU <= 9 B) or a time-out", obligation="well-formed diagnostics reply => known, Found(ident, master) iff unknown else Requery; other replies => nothing; time-out => Lost iff known; no other bit changes")
+
 PROPERTIES = {
     "C09": {
         "claim": "Bounded: for every header (DA/SA 0..127, any SAP options, any function code) and every payload within the stated length/content bounds the real encoder's bytes equal an independent reference frame encoder, the reported lengths agree, and the real decoder returns the identical telegram consuming exactly the frame. Function codes: exhaustive over all bytes and all values.",
@@ -145,6 +171,20 @@ PROPERTIES = {
                         "'accepted reply' = a reply that changed observable state (bring-up state, event, reported diagnostics, input image)",
                         "several peripherals: per-peripheral relation plus C14's routing lemma (a callback touches only the addressed slot)"],
         "outside": ["histories are covered by induction over Inv_DP, not enumerated; triples of requests beyond the Offline case"],
+    },
+    "C14": {
+        "claim": "Bounded, one-step inductive: for a DP master with 0, 2 (quick) or 3 (thorough) storage slots of symbolic occupancy (sparse arrays included), every slot an arbitrary peripheral under Inv_DP, and any master state, ONE real transmit_telegram terminates and serves exactly the first slot at/after the cycle index that has something to send (nobody passed over, nobody served twice), reports 'cycle completed' exactly when all remaining slots declined (then restarts at slot 0 and never reports it twice), reports every Offline transition as an event with the right handle (none lost or invented), sends the reference global-control broadcast exactly when due without touching the cycle; ONE real receive_reply touches only the addressed slot, advances the cycle by exactly one occupied slot and reports that peripheral's event; per-peripheral event life-cycle relation (Online / Configured / DataExchanged / Offline / errors vs. is_live()/is_running()) from the peripheral step harnesses. 'Exactly one turn per peripheral between two cycle-completed reports' follows by induction over the cycle index (paper step).",
+        "assumptions": ["replies restricted to the FDL admission predicate and routed to the peripheral whose request is outstanding (C15)",
+                        "1-byte process images in the master harnesses (contents are the subject of C03/C04)",
+                        "growing Vec storage not explored (needs std; Borrowed slices only) - slot arithmetic is identical"],
+        "outside": ["4 peripherals; Vec-backed storage; token-hold interruptions are covered only in so far as every call is checked from an arbitrary cycle index"],
+    },
+    "C18": {
+        "claim": "Bounded, one-step from ANY state: for every station set (all 2^128 bit patterns), cursor and flag, one real callback of the live list / DP scanner probes exactly the cursor address (never above 125) or advances the cursor by exactly one modulo 126; a reply sets exactly that address's bit and raises Discovered/Found iff it was clear; a time-out clears exactly that bit and raises Lost iff it was set; no other bit ever changes; DP scanner descriptions carry the ident number and master address of the reply. Per-address alternation of events and 'list == responders after one full sweep of a stable population' follow by induction over the 126-step sweep (paper step).",
+        "assumptions": ["events are collected after every poll (the property's premise): pending event empty before each callback",
+                        "replies restricted to the FDL admission predicate; an SC answer to a status request sets the bit without an event (outside the property's population model)",
+                        "the callback's address is the cursor address (the FDL layer delivers replies/time-outs for the request last sent, C15)"],
+        "outside": ["the 252-callback sweep as a whole; lost replies appear as time-outs (one-step)"],
     },
     "C17": {
         "claim": "Bounded: for every diagnostics reply (PDU <= 10 / 40 bytes) the reported flags, ident number and master address equal the reply bytes; extended diagnostics are stored iff flagged, a buffer exists and they fit, otherwise the stored ones are unchanged; iterating ANY stored byte string (<= 8 / 24 bytes) terminates without panic within length+1 calls, yields exactly the blocks an independent reference parser finds (type, position, length, decoded fields), and yields nothing after the first malformed block; also with no buffer attached, with logging enabled.",
